@@ -53,6 +53,9 @@ TEMPLATES = {
     'exc': [["rz({k}, ValueError('m{k}'))"], ["(rz({k}, ValueError('m{k}: detail')))"]],
     'star': [["from os.path import *"], ["from collections import *  # star"]],
     'pair2': [["x{k} = p({k}, '{o}')", "y{k} = {k}"]],
+    'f9': [["if False:", "    y{k} = 0", "# a note in column 0", "else: x{k} = p({k}, '{o}')"],
+           ["try:", "    x{k} = p({k}, '{o}')", "# a note in column 0", "finally: y{k} = 2"]],
+    'f10': [["with ctx() as a{k}, \\", "        ctx() as b{k}:", "    x{k} = p({k}, '{o}')"]],
     'badone': [["x{k} = = 1"], ["d{k} = {{'a': 1,, 'b': 2}}"], ["print('{{}}'.format({k}) 2)"], ["def {k}bad(:"], ["x{k} = 1 +"]],
     'trunc2': [["x{k} = [p({k}, '{o}'),", "2"], ["x{k} = '''{o}", "never closed"]],
     'braw3': [["x{k} = [1,", "2,", "3]"]],
@@ -304,6 +307,8 @@ def _one(raw):
     if rot % 5 == 0:
         variants.append((True, 8 if rot % 2 else 4))       # tab-indented / extra common indentation
     info = {'key': tuple((b['t'], b['shape'], b['style'], b['ind'], b['dir']) for b in case['blocks']), 'err': case['err'], 'f11': case['f11']}
+    if _JOB.get('skip_shapes') and any(b.get('shape') in _JOB['skip_shapes'] for b in case['blocks']):
+        return info
     for tabs, extra in variants:
         lines = render(case, rot, tabs=tabs, extra_indent=extra, **_JOB.get('render_kw', {}))
         bad = compare_parse(case, lines)
